@@ -275,6 +275,31 @@ fn run(ctx: &mut Ctx, rep: &mut Report) {
             }
         }
     }
+    // 2c. the same record synthesised for owners that differ only in letter case, back to back on one thread
+    {
+        let firsts: Vec<usize> = {
+            let mut seen = std::collections::BTreeSet::new();
+            recs.iter().enumerate().filter(|(_, r)| seen.insert(r.type_name())).map(|(i, _)| i).collect()
+        };
+        for &i in &firsts {
+            gi += 1;
+            if !ctx.mine(gi) {
+                continue;
+            }
+            for owner in ["twin.example", "TWIN.EXAMPLE", "Twin.Example", "twin.example", "twin.example."] {
+                let mut tr = recs[i].clone();
+                tr.owner = owner.to_string();
+                let r = check_valid(&tr, 0, 0, false).map(|c| format!("{}case_twin", c)).map_err(|(sg, w)| (format!("case_twin_sequence:{}", sg), w));
+                match r {
+                    Ok(c) => {
+                        rep.transitions += 1;
+                        rep.class(&c);
+                    }
+                    Err((sg, w)) => rep.violation(&sg, w, json!({"kind": "twins", "level": ctx.tier.pick(0, 1), "index": i})),
+                }
+            }
+        }
+    }
     // 3. single-character damage of short valid texts
     for (i, tr) in recs.iter().enumerate() {
         let text = render(&tr.tokens(0), 0);
@@ -361,6 +386,17 @@ fn replay(case: &Value) -> Result<String, String> {
             let (kw, ws) = (case["kw"].as_u64().unwrap_or(0) as usize, case["ws"].as_u64().unwrap_or(0) as usize);
             println!("text: {:?}", short(&render(&recs[i].tokens(kw), ws)));
             check_valid(&recs[i], kw, ws, true).map_err(|(s, w)| format!("[{}] {}", s, w))
+        }
+        Some("twins") => {
+            let recs = valid_records(case["level"].as_u64().unwrap_or(0) as usize);
+            let i = case["index"].as_u64().unwrap_or(0) as usize;
+            for owner in ["twin.example", "TWIN.EXAMPLE", "Twin.Example", "twin.example", "twin.example."] {
+                let mut tr = recs[i].clone();
+                tr.owner = owner.to_string();
+                println!("text: {:?}", short(&render(&tr.tokens(0), 0)));
+                check_valid(&tr, 0, 0, false).map_err(|(s, w)| format!("[case_twin_sequence:{}] {}", s, w))?;
+            }
+            Ok("every twin synthesised to its own spelling".into())
         }
         Some("after_fail") => {
             let recs = valid_records(case["level"].as_u64().unwrap_or(0) as usize);
